@@ -75,3 +75,44 @@ Section Quantities.
     power_q F N ND k a = (if axis_plain N (last k 0%Z) true then 1 else fz 2) * (a * a) / (fz 2 * (ND * ND)).
   Proof. unfold power_q, recon_scale. destruct (axis_plain N (last k 0%Z) true); cbn [fz fpos]; field; repeat split; auto; exact (two_neq0 F). Qed.
 End Quantities.
+
+(* summing the binned spectrum over all bins 0..N/2 returns the total of the quantities of the modes inside the Nyquist sphere, each mode
+   counted exactly once; the modes outside the sphere are dropped - for every list of stored modes (any D, any channel) *)
+From EXV Require Import Nonlin.Conv Nonlin.MeanFree.
+Section Total.
+  Variable F : FieldT.
+  Add Field Fft : (fth F).
+  Local Open Scope fld_scope.
+
+  Definition inside (N : Z) (k : list Z) : bool := (4 * norm2 k <? (2 * (N / 2) + 1) * (2 * (N / 2) + 1))%Z.
+
+  Lemma fsum_unique {A} (P : A -> bool) (q : F) (l : list A) (b0 : A) :
+    NoDup l -> In b0 l -> P b0 = true -> (forall b, In b l -> P b = true -> b = b0) ->
+    fsum (map (fun b => if P b then q else 0) l) = q.
+  Proof.
+    intros Hnd. induction Hnd as [|a l Ha Hnd IH]; intros Hin HP Hu; [destruct Hin|]. cbn [map fsum].
+    destruct Hin as [->|Hin].
+    - rewrite HP. rewrite (fsum_map_ext F _ _ (fun _ => 0)); [rewrite fsum_map_zero; ring|].
+      intros b Hb. destruct (P b) eqn:E; [|reflexivity]. exfalso. apply Ha. rewrite <- (Hu b (or_intror Hb) E). exact Hb.
+    - destruct (P a) eqn:E; [exfalso; apply Ha; rewrite (Hu a (or_introl eq_refl) E); exact Hin|].
+      rewrite IH; [ring | exact Hin | exact HP | intros b Hb; apply Hu; right; exact Hb].
+  Qed.
+
+  Lemma fsum_none {A} (P : A -> bool) (q : F) (l : list A) : (forall b, In b l -> P b = false) -> fsum (map (fun b => if P b then q else 0) l) = 0.
+  Proof. intros H. rewrite (fsum_map_ext F _ _ (fun _ => 0)); [apply fsum_map_zero|]. intros b Hb. rewrite (H b Hb). reflexivity. Qed.
+
+  Theorem bins_total (N : Z) (qs : list (list Z * F)) : (0 <= N)%Z ->
+    fsum (map (fun b => bin_sum F b qs) (zrange 0 (N / 2))) = fsum (map (fun p => if inside N (fst p) then snd p else 0) qs).
+  Proof.
+    intros HN. unfold bin_sum. rewrite fsum_map_swap. apply fsum_map_ext. intros [k q] _. cbn [fst snd].
+    assert (H2 : (0 <= N / 2)%Z) by (apply Z.div_pos; lia).
+    unfold inside. destruct (Z.ltb_spec (4 * norm2 k) ((2 * (N / 2) + 1) * (2 * (N / 2) + 1))) as [Hin|Hout].
+    - destruct (bin_exists N k HN Hin) as (b0 & Hb0 & Hbin).
+      apply (fsum_unique (fun b => in_bin b k) q (zrange 0 (N / 2)) b0).
+      + apply NoDup_zrange_from.
+      + apply in_zrange. lia.
+      + exact Hbin.
+      + intros b Hb Hbb. apply in_zrange in Hb. apply (bins_disjoint b b0 k); try lia; assumption.
+    - apply fsum_none. intros b Hb. apply in_zrange in Hb. apply (bin_outside N b k); lia.
+  Qed.
+End Total.
